@@ -10,6 +10,7 @@ import S3V.Driver.Coord
 import S3V.Driver.Args
 import S3V.Driver.Chunk
 import S3V.Driver.Download
+import S3V.Driver.Upload
 
 namespace S3V.Driver
 
@@ -26,6 +27,7 @@ def step (st : DState) (line : String) : DState × String :=
   match toks with
   | ["reset"] => (DState.init, "ok")
   | "plan" :: rest => (st, planStep rest)
+  | "up" :: rest => (st, upStep rest)
   | "dl" :: rest => (st, dlStep rest)
   | "chunk" :: _ | "agg" :: _ => let r := chunkStep st.chunk toks; ({ st with chunk := r.1 }, r.2)
   | "args" :: rest => (st, argsStep rest)
